@@ -194,7 +194,7 @@ pub fn c12_main(tier: Tier) -> i32 {
         viols.push(json!({"sig": sig, "replay": path}));
     };
     if let Some((h, sig, d)) = &b.violation {
-        handle(sig, json!({"history_codes": h, "history": h.iter().map(|e| fsm::EVENTS[*e as usize]).collect::<Vec<_>>(), "detail": d, "found_by": "bfs"}), d);
+        handle(sig, json!({"history_codes": h, "history": h.iter().map(|e| fsm::event_name(*e as usize)).collect::<Vec<_>>(), "detail": d, "found_by": "bfs"}), d);
     }
     {
         use runner::Prop;
@@ -220,7 +220,7 @@ pub fn c12_main(tier: Tier) -> i32 {
     if (accepting == 0 || refusing == 0) && b.violation.is_none() {
         machinery = Some("vacuous exploration: input window never opens or never closes".into());
     }
-    let n_ev = fsm::EVENTS.len();
+    let n_ev = fsm::n_bfs_events();
     {
         use runner::Prop;
         report::write_evidence(&report::Evidence {
@@ -245,7 +245,7 @@ pub fn c12_main(tier: Tier) -> i32 {
                 "distinct_nontrivial": rr.nontrivial,
                 "rule": prop.rule(),
                 "exhaustive": true,
-                "explanation": format!("BFS to fixpoint over canonical keys (real global::Client state id x share id) with {} events per state, every transition executed by replaying the history on a fresh real client; plus every history of length <= depth without merging, whose final keys must all lie in the BFS fixpoint", n_ev),
+                "explanation": format!("BFS to fixpoint over canonical keys (real global::Client state id x share id) with {} events per state (the 12 letters, a Set Error Info with a non-zero code, and every ordered pair of the 11 slow-path letters packed into one frame), every transition executed by replaying the history on a fresh real client; plus every history of length <= depth without merging, whose final keys must all lie in the BFS fixpoint", n_ev),
                 "violations_detail": viols,
                 "known_findings_matched": known,
             }),
